@@ -5,12 +5,12 @@ Import ListNotations.
 Open Scope string_scope.
 
 (* CSS 2.1 10.3.3 on the current source of block_level_width, containing block given as (width, height) *)
-Theorem C05_width_equation_ltr ml mr w pl pr bl br px cbw :
+Theorem C05_width_equation_ltr is_col ml mr w pl pr bl br px cbw :
   len ml -> len mr -> len w ->
   run real_ops block_level_width_body
-      [("box", mkbox ml mr w pl pr bl br px false); ("containing_block", cb_tuple cbw)]
+      [("box", mkbox ml mr w pl pr bl br px is_col); ("containing_block", cb_tuple cbw)]
       (width_post ml mr w pl pr bl br px cbw false) (fun _ => False).
-Proof. exact (block_level_width_equation_tuple_cb ml mr w pl pr bl br px cbw). Qed.
+Proof. exact (block_level_width_equation_tuple_cb is_col ml mr w pl pr bl br px cbw). Qed.
 Print Assumptions C05_width_equation_ltr.
 
 (* ... and with a box as containing block, both directions, column boxes or not *)
@@ -44,3 +44,24 @@ Print Assumptions C05_collapse_is_maxpos_plus_minneg.
 Theorem C05_collapse_order_independent a b : (collapse (a ++ b) == collapse (b ++ a))%Q.
 Proof. exact (collapse_app_comm a b). Qed.
 Print Assumptions C05_collapse_order_independent.
+
+(* min-width / max-width: handle_min_max_width re-runs the regenerated block_level_width with the clamped width;
+   the used width then respects min-width, and max-width whenever max >= min; the box does not move (ltr) *)
+Require Import WV.proofs.PyNatural WV.model.C05MinMax WV.proofs.C05_minmax.
+Theorem C05_min_max_width_respected is_col ml mr w pl pr bl br px cbw minw maxw :
+  len ml -> len mr -> len w ->
+  exists a c d x ic,
+    with_min_max (mkbox ml mr w pl pr bl br px is_col) (cb_tuple cbw) minw maxw
+      = Some (mkbox (VNum a) (VNum c) (VNum d) pl pr bl br x ic) /\
+    (minw <= d)%Q /\
+    (forall m, maxw = Some m -> (minw <= m)%Q -> (d <= m)%Q) /\
+    (x == px)%Q.
+Proof. exact (min_max_width_respected is_col ml mr w pl pr bl br px cbw minw maxw). Qed.
+Print Assumptions C05_min_max_width_respected.
+
+(* the interpreter is natural in its answer type (what makes the composition above possible) *)
+Theorem C05_interpreter_natural (O : qops) (A : Type) (body : list stmt) (rho : env)
+        (obs : env -> option val -> A) (kerr : string -> A) :
+  run O body rho obs kerr = match run_out O body rho with ONorm rho' r => obs rho' r | OErr m => kerr m end.
+Proof. exact (run_natural O body rho obs kerr). Qed.
+Print Assumptions C05_interpreter_natural.
